@@ -31,7 +31,7 @@ def gen_cases(tier, seed):
     out = []
     for i in range(n):
         s = env.seed_for(seed, ID, tier, i)
-        r = random.Random(s)
+        r = random.Random(env.seed_for(s, "descriptor"))  # independent of the stream run_case derives from the same seed
         mode = "file" if r.random() < 0.15 else "mem"
         out.append({"seed": s, "mode": mode, "n": r.randint(2, 12 if tier == "quick" else 22) if mode == "mem" else r.randint(2, 7),
                     "steps": r.randint(0, 5), "tier": tier})
